@@ -122,7 +122,8 @@ def to_smt2(assertions, consts, logic="QF_AUFBV") -> str:
     # z3-internal "divisor known non-zero" operators are not SMT-LIB; same meaning as the plain ones there
     for op in ("bvudiv", "bvurem", "bvsdiv", "bvsrem", "bvsmod"):
         text = text.replace(f"({op}_i ", f"({op} ")
-    scal = [c for c in consts if z3.is_bv(c) or z3.is_bool(c)]
+    declared = {str(c) for c in free_consts(assertions)}
+    scal = [c for c in consts if (z3.is_bv(c) or z3.is_bool(c)) and str(c) in declared]
     head = f"(set-option :produce-models true)\n(set-logic {logic})\n"
     tail = ""
     if scal:
